@@ -166,6 +166,31 @@ def unpack_sites_of(body) -> list[str]:
     return sites
 
 
+class Acc:
+    """distinct Coq case terms accumulated over the run (the method texts themselves are dropped after each schema)"""
+
+    def __init__(self):
+        self.pk, self.uk, self.wit, self.problems, self.n = {}, {}, {}, [], 0
+
+    def flush(self, rec: Recorder):
+        pk, uk, wit, problems, n = cases_of(rec)
+        for t in pk:
+            self.pk.setdefault(t, None)
+        for t in uk:
+            self.uk.setdefault(t, None)
+        for t, w in wit.items():
+            self.wit.setdefault(t, w)
+        if len(self.problems) < 20:
+            self.problems += problems[:20]
+        self.n_problems = getattr(self, "n_problems", 0) + len(problems)
+        self.n += n
+        del rec.recs[:]
+        rec.schemas.clear()
+
+    def result(self):
+        return list(self.pk), list(self.uk), self.wit, self.problems, self.n
+
+
 def cases_of(rec: Recorder):
     """-> (pack terms, unpack terms, witnesses, problems, number of methods): distinct Coq case terms with one witness
     (class source position) each"""
